@@ -215,13 +215,16 @@ impl<'a> Run<'a> {
     }
     // C08: "A receiver observes Disconnected only after every sender handle is gone and it
     // has drained its mailbox, and it does observe it then, whatever its subscriptions."
+    // The same sentences are C04's disconnect protocol ("including spmc broadcast and topic"),
+    // so under the C04 check they are reported as C04.
+    let dprop = if crate::current_property() == "C04" { "C04" } else { "C08" };
     let tx_alive = self.tx_alive();
     if disc && tx_alive {
-      fail!("C08", sig(a, form, "disconnected_with_live_sender"), "Disconnected while {} sender handle(s) are alive", self.txm.iter().filter(|c| !**c).count());
+      fail!(dprop, sig(a, form, "disconnected_with_live_sender"), "Disconnected while {} sender handle(s) are alive", self.txm.iter().filter(|c| !**c).count());
     }
     if !disc && !tx_alive {
       let c = if self.rxm[r].subs.is_empty() { "no_disconnect_without_subscription" } else { "no_disconnect_after_senders_gone" };
-      fail!("C08", sig(a, form, c), "reported empty although every sender handle is gone and the mailbox is drained (subscriptions {:?})", self.rxm[r].subs);
+      fail!(dprop, sig(a, form, c), "reported empty although every sender handle is gone and the mailbox is drained (subscriptions {:?})", self.rxm[r].subs);
     }
     Ok(())
   }
